@@ -187,7 +187,9 @@ func (c *client) Execute(
 		StepID: stepData.ID,
 		Config: stepData.InputData,
 	}
-	cborReader := c.decMode.NewDecoder(c.rawAtpChannels)
+	// One decoder for the life of the client: a stream decoder reads ahead, and a second decoder on the same channel
+	// would start in the middle of whatever the first one had already buffered.
+	cborReader := c.decoder
 	if c.atpVersion > 1 {
 		// Wrap it in a runtime message.
 		workStartMsg = RuntimeMessage{RunID: stepData.RunID, MessageID: MessageTypeWorkStart, MessageData: workStartMsg}
